@@ -908,6 +908,41 @@ pub fn generate(ctx: &mut Ctx) {
         }
         emit(ctx, &format!("seq:{i}"), "seq", &GraphSrc::Rows(g.rows), t);
     }
+    // deep supertype chains (deeper than anything in the shipped defs): what was asked first must not
+    // decide what a later question answers
+    for (ci, len) in [18usize, 19, 24, 40, 90].iter().enumerate() {
+        let mut rows: Vec<RowSpec> = (0..*len).map(|i| RowSpec::plain(&format!("c{i}"), if i == 0 { vec![] } else { vec![Some(format!("c{}", i - 1))] })).collect();
+        // a side branch half way up and a second root
+        rows.push(RowSpec::plain("side", vec![Some(format!("c{}", len / 2))]));
+        rows.push(RowSpec::plain("leaf", vec![Some(format!("c{}", len - 1)), some("side")]));
+        let c = |i: usize| format!("c{i}");
+        let last = len - 1;
+        let orders: Vec<Vec<Q>> = vec![
+            vec![Q::Inh(c(last)), Q::Inh(c(last / 2)), Q::Fits(c(last / 2), c(0)), Q::ASup(c(last / 2)), Q::Inh(c(last - 1)), Q::Fits(c(last), c(1))],
+            vec![Q::Inh(c(last / 2)), Q::Inh(c(last)), Q::Fits(c(last), c(0)), Q::Inh(c(1)), Q::Inh(c(last - 2))],
+            vec![Q::Fits(s("leaf"), c(0)), Q::Inh(s("side")), Q::Inh(c(last)), Q::Fits(c(last - 3), c(2)), Q::Inh(s("leaf"))],
+            (0..*len).map(|i| Q::Inh(c(i))).collect(),
+            (0..*len).rev().map(|i| Q::Inh(c(i))).collect(),
+            (0..*len).rev().map(|i| Q::Fits(c(i), c(0))).collect(),
+        ];
+        for (oi, qs) in orders.iter().enumerate() {
+            let mut t = vec![qs.len().to_string()];
+            for q in qs {
+                q.write(&mut t);
+            }
+            emit(ctx, &format!("seq:chain{ci}_{oi}"), "seq", &GraphSrc::Rows(rows.clone()), t);
+        }
+        let o = Oracle::new(&rows);
+        let uni = universe_of(&o);
+        for k in 0..ctx.n(2, 20) {
+            let qs = gen_queries(&mut rng, &o, &uni, 12, MODELLED);
+            let mut t = vec![qs.len().to_string()];
+            for q in &qs {
+                q.write(&mut t);
+            }
+            emit(ctx, &format!("seq:chain{ci}_r{k}"), "seq", &GraphSrc::Rows(rows.clone()), t);
+        }
+    }
     // ---- concurrency ------------------------------------------------------------------------
     for i in 0..ctx.n(120, 3000) {
         let mut g = c13::gen_graph(&mut rng, 22);
